@@ -2,6 +2,7 @@ package main
 
 import (
 	"fmt"
+	"strings"
 
 	tls "github.com/refraction-networking/utls"
 	"verif/harness/vh"
@@ -225,7 +226,7 @@ func runSweep(c *vh.Ctx) {
 			}
 			key := fmt.Sprintf("sweep/L%d/pos%d", L, pos)
 			spec := sweepSpec(pos, L-base, &tls.UtlsPaddingExtension{GetPaddingLen: tls.BoringPaddingStyle})
-			pads := padInfos(spec, 0)
+			pads := padInfos(spec)
 			uc, err := buildConn(spec, variant{sni: 9, sid: -1}, c.Seed+int64(L))
 			if err != nil {
 				c.Fail(key, "custom spec does not build", key, fmt.Sprint(err), "ClientHello")
@@ -271,7 +272,7 @@ func runCustom(c *vh.Ctx) {
 			key := fmt.Sprintf("always/%d/u%d/pos%d", n, u, pos)
 			pe := &tls.UtlsPaddingExtension{GetPaddingLen: tls.AlwaysPadToLen(n), PaddingLen: 77, WillPad: true}
 			spec := sweepSpec(pos, u-base, pe)
-			pads := padInfos(spec, n)
+			pads := padInfos(spec)
 			uc, err := buildConn(spec, variant{sni: 9, sid: -1}, c.Seed+int64(u))
 			if err != nil {
 				c.Fail(key, "custom spec does not build", key, fmt.Sprint(err), "ClientHello")
@@ -292,7 +293,7 @@ func runCustom(c *vh.Ctx) {
 			key := fmt.Sprintf("manual/%d/%v/pos%d", st.l, st.w, pos)
 			pe := &tls.UtlsPaddingExtension{PaddingLen: st.l, WillPad: st.w}
 			spec := sweepSpec(pos, 40, pe)
-			pads := padInfos(spec, 0)
+			pads := padInfos(spec)
 			uc, err := buildConn(spec, variant{sni: 9, sid: -1}, c.Seed+int64(st.l))
 			if err != nil {
 				c.Fail(key, "custom spec does not build", key, fmt.Sprint(err), "ClientHello")
@@ -332,7 +333,7 @@ func runCustom(c *vh.Ctx) {
 	} {
 		key := "edge/" + z.name
 		spec := customSpec(z.exts()...)
-		pads := padInfos(spec, 300)
+		pads := padInfos(spec)
 		uc, err := buildConn(spec, variant{sni: z.sni, sid: -1}, c.Seed)
 		if err != nil {
 			c.Fail(key, "custom spec does not build", key, fmt.Sprint(err), "ClientHello")
@@ -362,13 +363,17 @@ func runCustom(c *vh.Ctx) {
 			} else {
 				spec = customSpec(&tls.SNIExtension{}, p1, genExt(0x4a4a, d), p2)
 			}
-			pads := padInfos(spec, 0)
+			pads := padInfos(spec)
 			uc, err := buildConn(spec, variant{sni: 9, sid: -1}, c.Seed)
 			if err == nil {
 				oracleCommon(c, key, uc.HandshakeState.Hello.Raw)
 				c.Fail(key, "spec with two padding extensions was marshalled without error", key, len(uc.HandshakeState.Hello.Raw), "error")
 			}
-			emitCase(c, "dup", key, uc, err, pads, 0, true)
+			if err == nil || strings.Contains(err.Error(), "multiple padding extensions") {
+				emitCase(c, "dup", key, uc, err, pads, 0, true)
+			} else {
+				c.Fail(key, "spec with two padding extensions failed for another reason", key, fmt.Sprint(err), "multiple padding extensions")
+			}
 		}
 	}
 }
@@ -441,8 +446,8 @@ func fpOne(c *vh.Ctx, id tls.ClientHelloID, s int) {
 	for _, e := range spec2.Extensions {
 		if pe, ok := e.(*tls.UtlsPaddingExtension); ok {
 			npad++
-			if polOf(pe) != "always" {
-				c.Fail(key, "FromRaw did not install AlwaysPadToLen on the padding extension", key, polOf(pe), "always")
+			if pol, n := polOf(pe); pol != "always" || n != len(rec)-5 {
+				c.Fail(key, "FromRaw did not install AlwaysPadToLen(len(raw)-5) on the padding extension", key, fmt.Sprint(pol, " ", n), fmt.Sprint("always ", len(rec)-5))
 				return
 			}
 		}
